@@ -16,6 +16,9 @@ Pipeline (model-based; the TLA+ specification decides):
   4. Every extracted number is compared with the specification's rational: the driver converts the double
      exactly to a rational and computes an integer distance; TLC (spec/tableaux/Trace_Tableau.tla) evaluates the
      contract `dist <= bound` on every record and prints VIOL lines -> VIOLATION property=C02.
+     Landing-step probes: two steps (first_step = max_step = 1, span 1.3) so that the second step is shortened by the landing logic; c_i
+     relative to the ACTUAL step, a_ij, b_j of that step, and the call that provides its k1 = f(x_1, y_1), with the low-level builders'
+     dense_output(true) and dense_output(false) (identical stage arguments required).  RADAU also has the flag but is implicit: not probed.
   thorough adds: every canary, every negative fact once more as an invariant of its own, estimator sums over all stage pairs.
 """
 import concurrent.futures
@@ -411,6 +414,165 @@ def facts_from_source(facts, m, drift, want=lambda coef: True):
     return seen
 
 
+# ------------------------------------------------------------------ landing-step probes (two steps, the second one shortened)
+LAND_SPAN = 1.3
+# (ode calls per step after k1 is available, without the dense-only stages; position among them of the call that provides the next k1)
+STRUCT = {"RK4": (4, 4), "RK23": (3, 3), "DOPRI5": (6, 6), "DOP853": (12, 12)}
+
+
+def n_step(m, dense):
+    return STRUCT[m][0] + (3 if (m == "DOP853" and dense) else 0)
+
+
+def k1_call(m):
+    """1-based index of the ode call of step 1 whose result is k1 of step 2: f(x_1, y_1)."""
+    return 1 + STRUCT[m][1]
+
+
+def comp(m, dense, j):
+    """1-based index of the ode call (= probe component) whose derivative is k_j of step 2."""
+    return k1_call(m) if j == 1 else 1 + n_step(m, dense) + 1 + (j - 2)
+
+
+def last_stage(m, dense):
+    return tg.tab(m).ncalls if (dense or m != "DOP853") else 13
+
+
+def landing_jobs(methods, thetas=(), apis=("lowlevel", "nodense")):
+    """Two steps: first_step = 1 = max_step on a span of 1.3, so the second step is shortened to 0.3 by the landing logic.
+    apis: lowlevel (builder default, dense on), nodense (low-level builder with dense_output(false)), solve_ivp."""
+    jobs = []
+    for m in methods:
+        for dn, d in DIRS:
+            for api in apis:
+                dense = api != "nodense"
+                x1, x2 = d * 1.0, d * LAND_SPAN
+                job = {"id": f"land/{m}/{api}/{dn}", "kind": "land", "api": "solve_ivp" if api == "solve_ivp" else "lowlevel", "route": api,
+                       "method": m, "dir": d, "dirname": dn, "dim": 1 + 2 * n_step(m, dense), "resp": "unit", "atol": [tok(1e300)],
+                       "rtol": tok(0.0), "span": tok(LAND_SPAN), "max_step": tok(1.0), "dense": dense,
+                       "thetas": [tok(x) for x in thetas] if api == "lowlevel" else [],
+                       "xis": [tok(x1 + th * (x2 - x1)) for th in thetas] if api == "solve_ivp" else []}
+                jobs.append(job)
+    return jobs
+
+
+def _finite(xs):
+    return all(x == x and abs(x) != float("inf") for x in xs)
+
+
+def landing_geometry(job, rec):
+    """(x1, y1, x2, y2) of the two steps, or a string saying why not.  Low-level routes: from the SolOut callbacks;
+    solve_ivp: from the arguments of the two f(x_new, y_new) calls."""
+    m, d, dense = job["method"], job["dir"], job["dense"]
+    if rec.get("panic") or rec.get("error"):
+        return "panic/error: %s" % (rec.get("panic") or rec.get("error"))
+    if job["api"] == "lowlevel":
+        evs = [e for e in rec.get("solout", []) if untok(e["x"]) != 0.0]
+        if len(evs) != 2:
+            return "%d step callbacks instead of 2" % len(evs)
+        g = (untok(evs[0]["x"]), [untok(v) for v in evs[0]["y"]], untok(evs[1]["x"]), [untok(v) for v in evs[1]["y"]])
+    else:
+        calls = rec["calls"]
+        a, b = k1_call(m), comp(m, dense, STRUCT[m][1] + 1)
+        if len(calls) < b:
+            return "%d ode calls, expected at least %d" % (len(calls), b)
+        g = (untok(calls[a - 1]["t"]), [untok(v) for v in calls[a - 1]["y"]], untok(calls[b - 1]["t"]), [untok(v) for v in calls[b - 1]["y"]])
+    if not _finite([g[0], g[2]] + g[1] + g[3]) or g[0] == g[2]:
+        return "non-finite or degenerate step data"
+    return g
+
+
+def _rel_dist(got, want):
+    """distance of the rational got from the rational want in ulps of want (want = 0: must be equal)."""
+    if got == want:
+        return 0
+    if want == 0:
+        return CAP
+    return min(CAP, math.ceil(abs(got - want) / ulp_of(abs(want))))
+
+
+def facts_from_landing_run(facts, job, rec):
+    """c_i, a_ij, b_j of the SECOND (shortened) step, relative to its actual start and length; which call provides its k1."""
+    m, dn, d, dense = job["method"], job["dirname"], job["dir"], job["dense"]
+    via = "land" if dense else "land/nodense"
+    t = tg.tab(m)
+    g = landing_geometry(job, rec)
+    if isinstance(g, str):
+        facts.add(m, "land_run", dn, via, CAP, 0, got=g, want="two completed steps")
+        return
+    x1, y1, x2, y2 = g
+    calls = rec["calls"]
+    exp = 1 + 2 * n_step(m, dense)
+    facts.add(m, "land_ncalls", dn, via, abs(len(calls) - exp), 0, got=len(calls), want=exp)
+    facts.add(m, "land_x1", dn, via, ulp_dist(x1, F(d * 1.0)), 0, got=x1, want=d * 1.0)
+    facts.add(m, "land_x2", dn, via, ulp_dist(x2, F(d * LAND_SPAN)), 0, got=x2, want=d * LAND_SPAN)
+    h2 = F(x2) - F(x1)
+    xscale = max(abs(F(x1)), abs(F(x2)))
+    dim = len(y1)
+    kc = k1_call(m)
+    ok = len(calls) >= kc and untok(calls[kc - 1]["t"]) == x1 and [untok(v) for v in calls[kc - 1]["y"]] == y1
+    facts.add(m, "land_k1src", dn, via, 0 if ok else CAP, 0,
+              got=("ode call %d at t=%r" % (kc, untok(calls[kc - 1]["t"]))) if len(calls) >= kc else "no such call",
+              want="ode call %d evaluated exactly at (x_1, y_1) = (%r, state after step 1): the first-stage derivative of step 2" % (kc, x1))
+    for i in range(2, last_stage(m, dense) + 1):
+        ci = comp(m, dense, i)
+        if ci > len(calls):
+            facts.add(m, "land_c_%d" % i, dn, via, CAP, 2, got="missing ode call %d" % ci, want=str(t.c[i]))
+            continue
+        tt = untok(calls[ci - 1]["t"])
+        ys = [untok(v) for v in calls[ci - 1]["y"]]
+        if not _finite([tt] + ys) or len(ys) != dim:
+            facts.add(m, "land_c_%d" % i, dn, via, CAP, 2, got="non-finite stage arguments", want=str(t.c[i]))
+            continue
+        facts.add(m, "land_c_%d" % i, dn, via, abs_dist(tt, F(x1) + t.c[i] * h2, xscale), 2,
+                  got="t=%r, i.e. c=%.17g of the actual step" % (tt, float((F(tt) - F(x1)) / h2)), want="c_%d = %s" % (i, t.c[i]))
+        used = set()
+        for j in range(1, i):
+            q = comp(m, dense, j)
+            used.add(q)
+            got = (F(ys[q - 1]) - F(y1[q - 1])) / h2
+            facts.add(m, "land_a_%d_%d" % (i, j), dn, via, _rel_dist(got, t.a(i, j)), 4, got=float(got), want=str(t.a(i, j)))
+        stale = [q for q in range(1, dim + 1) if q not in used and ys[q - 1] != y1[q - 1]]
+        facts.add(m, "land_other_%d" % i, dn, via, CAP if stale else 0, 0,
+                  got="stage %d of step 2 moved components %s (derivatives of other ode calls)" % (i, stale[:6]), want="only k_1..k_%d of step 2 enter" % (i - 1))
+    used = set()
+    for j in range(1, last_stage(m, dense) + 1):
+        q = comp(m, dense, j)
+        used.add(q)
+        got = (F(y2[q - 1]) - F(y1[q - 1])) / h2
+        facts.add(m, "land_b_%d" % j, dn, via, _rel_dist(got, t.b.get(j, F(0))), 4, got=float(got), want=str(t.b.get(j, F(0))))
+    stale = [q for q in range(1, dim + 1) if q not in used and y2[q - 1] != y1[q - 1]]
+    facts.add(m, "land_other_b", dn, via, CAP if stale else 0, 0, got="the update of step 2 moved components %s" % stale[:6], want="only k_j of step 2 enter")
+
+
+def facts_dense_invariance(facts, m, dn, rec_on, rec_off):
+    """the main stages of step 2 see bit-identical arguments with dense_output(true) and dense_output(false)."""
+    via = "land/nodense"
+    con, coff = rec_on.get("calls", []), rec_off.get("calls", [])
+    smain = STRUCT[m][1] + 1
+
+    def qmap(q_on):            # component of the dense-on run -> component of the dense-off run (None: dense-only call)
+        if q_on <= 1 + STRUCT[m][0]:
+            return q_on
+        for j in range(2, smain + 1):
+            if comp(m, True, j) == q_on:
+                return comp(m, False, j)
+        return None
+    for i in range(2, smain + 1):
+        a, b = comp(m, True, i), comp(m, False, i)
+        if a > len(con) or b > len(coff):
+            facts.add(m, "land_dense_invariance_%d" % i, dn, via, CAP, 0, got="missing ode call", want="same stage arguments")
+            continue
+        same = con[a - 1]["t"] == coff[b - 1]["t"]
+        yon, yoff = con[a - 1]["y"], coff[b - 1]["y"]
+        for q in range(1, len(yon) + 1):
+            r = qmap(q)
+            if r is not None and r <= len(yoff) and untok(yon[q - 1]) != untok(yoff[r - 1]):
+                same = False
+        facts.add(m, "land_dense_invariance_%d" % i, dn, via, 0 if same else CAP, 0,
+                  got="stage %d of step 2 differs between dense_output(true) and dense_output(false)" % i, want="identical (t, y) arguments")
+
+
 # ------------------------------------------------------------------ TLC on the facts
 def tlc_validate(facts, work, prop):
     path = os.path.join(work, f"facts-{prop}.ndjson")
@@ -489,7 +651,7 @@ def run(tier, seed, replay=None, keep=False):
                  f"{ap['canaries_refuted']}/{ap['canaries']} false identities refuted ({time.time()-t0:.1f}s)")
         # 3. extraction from the real code
         # the harness is (re)built against the working tree by vlib.run_bin -> ensure_harness() inside run_probe
-        jobs = unit_jobs(methods, []) + est_jobs(methods, tier)
+        jobs = unit_jobs(methods, []) + est_jobs(methods, tier) + landing_jobs(methods)
         recs = run_probe(jobs, work, "c02")
         facts = Facts(PROP)
         drift = []
@@ -507,6 +669,11 @@ def run(tier, seed, replay=None, keep=False):
                     facts_from_est_run(facts, j, recs[j["id"]])
                 else:
                     est_skipped += 1
+            elif j["kind"] == "land":
+                facts_from_landing_run(facts, j, recs[j["id"]])
+        for m in methods:
+            for dn, _d in DIRS:
+                facts_dense_invariance(facts, m, dn, recs[f"land/{m}/lowlevel/{dn}"], recs[f"land/{m}/nodense/{dn}"])
         src_seen = {}
         for m in methods:
             # the dense-output constants d_* belong to C07 (checks/c07.py compares them); everything else is compared here
@@ -535,7 +702,7 @@ def run(tier, seed, replay=None, keep=False):
             "obligations_by_method": {r_["method"]: r_["conjuncts"] for r_ in ap["runs"] if "method" in r_},
             "evaluations": len(facts.rows), "distinct_nontrivial": len(nontriv),
             "rule": "one record per (method, coefficient, direction, route): every c_i, every entry a_ij of the s x s matrix incl. structural zeros, "
-                    "every b_j (routes: low-level solve, solve_ivp), every error-estimator sum over a stage set {j} or {1,j} (route: step size), "
+                    "every b_j (routes: low-level solve, solve_ivp; land = second, shortened step of a two-step run, land/nodense = the same with dense_output(false)), every error-estimator sum over a stage set {j} or {1,j} (route: step size), "
                     "every constant of src/methods/<m>.rs except the dense-output constants, which C07 compares (route: source); non-trivial = the specification's value is non-zero and the route is behavioural; "
                     "distinct = distinct (method, coefficient)",
             "samples": ob_samples[:4] + fact_samples,
